@@ -404,6 +404,13 @@ func Corpus(c *Ctx) []*FileSpec {
 		add("oneofclash", "oneof-member-named-like-a-nested-type", true, f)
 	}
 
+	{ // a .proto whose path (and Go import path) contains upper-case characters: only the MESSAGE part of a
+		// per-message output file name is lower-cased
+		f := c.File("CamelFile", "proto3")
+		f.MessageType = append(f.MessageType, Msg("Widget", F("id", 1, Opt, "int32"), F("name", 2, Opt, "string")), Msg("GadgetBox", F("n", 1, Rep, "sint64")))
+		add("CamelFile", "upper-case-in-file-name", true, f)
+	}
+
 	// ---- imports: types that live in ANOTHER .proto / Go package than the file being generated ----
 	{ // the imported file: its Go package name (impdeppb) differs from the last element of its import path (impdep)
 		f := c.File("impdep", "proto3")
